@@ -4,11 +4,14 @@ Oracle: harness engines/h_fs — a model tree (path resolution + predicted snaps
 independent observer (full snapshot of the sandbox before and after every operation), on the disk
 file system and on tmpfs, native debug + release (+ chroot for one-component absolute paths,
 + ASan in the thorough tier for the getdents/Dirent parser)."""
+import collections
+import concurrent.futures
 import json
 import os
 import shutil
 import tempfile
 
+import syslog
 import vlib
 
 H = "engines/h_fs"
@@ -56,9 +59,14 @@ def _plan(tier, seed):
             jobs.append((prof, fs, "cda", seed * 1000 + 950, 12, False))
             # real short transfers: RLIMIT_FSIZE around writers/copy, chunk-fed fifo and /proc for readers
             jobs.append((prof, fs, "short", seed * 1000 + 990, 10 if quick else 100, False))
+            # interrupted calls, real signals: SIGUSR1 storm (handler without SA_RESTART) while the call runs
+            jobs.append((prof, fs, "sig", seed * 1000 + 995, 10 if quick else 100, False))
         # one-component absolute paths ("/x") can only be exercised inside a chroot
         jobs.append(("debug", fs, "cda", seed * 1000 + 960, 12, True))
         jobs.append(("debug", fs, "seq", seed * 1000 + 970, 300 if quick else 3000, True))
+    # interrupted calls, deterministic: EINTR at every position of the operation's own call sequence (sysmon)
+    for prof, fs in _eintr_plan(tier, seed):
+        jobs.append((prof, fs, "eintr", seed * 1000 + 996, 12 if quick else 40, False))
     if not quick:
         for fs in ("disk", "tmpfs"):
             jobs.append(("asan", fs, "readdir", seed * 1000 + 601, 100, False))
@@ -67,6 +75,64 @@ def _plan(tier, seed):
             jobs.append(("asan", fs, "rmall", seed * 1000 + 501, 300, False))
             jobs.append(("asan", fs, "short", seed * 1000 + 991, 10, False))
     return jobs
+
+
+# system calls of an operation at which EINTR is injected under sysmon (suppress + return -EINTR)
+EINTR_CALLS = ("read", "write", "open", "openat", "getdents64", "copy_file_range", "unlink", "unlinkat",
+               "mkdir", "mkdirat", "rmdir")
+
+
+def _eintr_plan(tier, seed):
+    """(profile, fs) pairs for the deterministic EINTR enumeration under engines/sysmon"""
+    if tier == "quick":
+        return [("debug", "disk"), ("debug", "tmpfs"), ("release", "tmpfs")]
+    return [(p, f) for p in ("debug", "release") for f in ("disk", "tmpfs")]
+
+
+def _eintr_job(binary, base, fs, seed, workdir, tag, max_positions):
+    """dry run under sysmon -> per-scenario system-call sequence -> plan (scenario, nr, k) -> injected run.
+    Returns dict(dry=run_one result, run=run_one result or None, planned=n, fired=n, seqs={scenario: n calls})."""
+    inv = {v: k for k, v in syslog.NR.items()}
+    dry_log = os.path.join(workdir, "eintr-%s-dry.log" % tag)
+    argv = [binary, "eintr", str(seed), "10", base, fs]
+    dry = vlib.run_one(syslog.sysmon_cmd(dry_log, argv, scope_markers=True, timeout_s=200), timeout=300)
+    out = dict(dry=dry, run=None, planned=0, fired=0, seqs={})
+    if dry["rc"] != 0 or dry["timed_out"]:
+        return out
+    cur, seqs = {}, collections.defaultdict(list)
+    for e in syslog.parse(dry_log):
+        if e.k == "M" and e.kind == syslog.MARK["BEGIN"]:
+            cur[e.tid] = e.a[0]
+        elif e.k == "M" and e.kind == syslog.MARK["END"]:
+            cur.pop(e.tid, None)
+        elif e.k == "S" and e.tid in cur:
+            seqs[cur[e.tid]].append(e.nr)
+    rng = vlib.rng(seed, "eintr", tag)
+    lines = []
+    for scen in sorted(seqs):
+        cnt = collections.Counter(seqs[scen])
+        out["seqs"][scen] = len(seqs[scen])
+        for nr, n in sorted(cnt.items()):
+            if inv.get(nr) not in EINTR_CALLS:
+                continue
+            if n <= max_positions:
+                ks = list(range(n))
+            else:
+                edge = max_positions // 3
+                ks = list(range(edge)) + list(range(n - edge, n))
+                ks += rng.sample(range(edge, n - edge), min(max_positions - 2 * edge, n - 2 * edge))
+            for k in sorted(set(ks)):
+                pos = "only" if n == 1 else "first" if k == 0 else "last" if k == n - 1 else "middle"
+                lines.append("%d %d %d %s" % (scen, nr, k, pos))
+    plan = os.path.join(workdir, "eintr-%s.plan" % tag)
+    with open(plan, "w") as f:
+        f.write("\n".join(lines) + "\n")
+    out["planned"] = len(lines)
+    run_log = os.path.join(workdir, "eintr-%s-run.log" % tag)
+    out["run"] = vlib.run_one(syslog.sysmon_cmd(run_log, argv + ["plan=" + plan], scope_markers=True, timeout_s=400),
+                              timeout=500)
+    out["fired"] = sum(1 for e in syslog.parse(run_log) if e.k == "S" and e.inj)
+    return out
 
 
 def _label(j):
@@ -118,9 +184,21 @@ def run(ck, replay=None):
             ck.note_inconclusive("the temp dir %s is itself on tmpfs: no disk file system exercised" % bases["disk"])
 
         jobs, meta = [], []
+        pool = concurrent.futures.ThreadPoolExecutor(max_workers=4)
+        eintr = []
         for j in plan:
             prof, fs, mode, seed, budget, chroot = j
             if prof not in bins or fs not in bases:
+                continue
+            if mode == "eintr":
+                # two phases under sysmon; runs beside the other jobs
+                try:
+                    syslog.sysmon_bin()
+                except vlib.BuildError as ex:
+                    ck.note_inconclusive("sysmon build failed: %s" % str(ex)[-300:])
+                    continue
+                eintr.append((j, pool.submit(_eintr_job, bins[prof] + "/h_fs", bases[fs], fs, seed, bases["disk"],
+                                             "%s-%s" % (prof, fs), budget)))
                 continue
             argv = [bins[prof] + "/h_fs", mode, str(seed), str(budget), bases[fs], fs]
             if chroot:
@@ -161,6 +239,21 @@ def run(ck, replay=None):
             if ck.consume_result(r, label):
                 ck.note_distinct("run/%s/%s/%s%s" % (prof, fstypes.get(fs, fs), mode, "/chroot" if chroot else ""))
                 ck.count("processes_completed")
+        for j, fut in eintr:
+            label = _label(j)
+            r = fut.result()
+            if not ck.consume_result(r["dry"], label + " (dry run)"):
+                continue
+            if r["run"] is None or not ck.consume_result(r["run"], label):
+                continue
+            ck.count("eintr_positions_planned", r["planned"])
+            ck.count("eintr_injections_fired", r["fired"])
+            ck.count("eintr_calls_in_dry_sequences", sum(r["seqs"].values()))
+            if r["planned"] and r["fired"] * 2 < r["planned"]:
+                ck.note_inconclusive("%s: only %d of %d planned EINTR injections fired" % (label, r["fired"], r["planned"]))
+            ck.note_distinct("run/%s/%s/eintr" % (j[0], fstypes.get(j[1], j[1])))
+            ck.count("processes_completed", 2)
+        pool.shutdown()
     finally:
         for b in bases.values():
             shutil.rmtree(b, ignore_errors=True)
@@ -178,11 +271,13 @@ def run(ck, replay=None):
     ck.assume("runs as the user of the check (root here): permission-denied destination states cannot be produced, read-only files are still writable")
     ck.assume("operations whose path resolves to a fifo/socket are not issued (open would block); source==destination copies are not issued")
     ck.assume("short writes are provoked with a lowered soft RLIMIT_FSIZE (SIGXFSZ ignored) around the tiny-std call only; short reads with a chunk-fed fifo and /proc files; other causes of short transfers (signals, full disk, quotas) are not produced")
+    ck.assume("interruptions: (a) SIGUSR1 storms (handler without SA_RESTART) from a helper thread only while the tiny-std call runs; only calls that sleep (fifo open/read/write, copy_file_range of MiBs) are actually interrupted, the counters sig/<op>/signalled say how often a signal arrived; (b) under sysmon the k-th read/write/openat/getdents64/copy_file_range/unlinkat/mkdirat of the operation's dry-run sequence is suppressed and returns -EINTR (<=12 positions per call kind: all, or first/last/seeded middle); an Err(EINTR) surfaced by tiny-std is counted, not judged")
     ck.assume("paths of 4096 bytes and more are only checked for 'no Ok, no panic'")
     return ("matrices: create_dir_all over (1..12 components) x (every existing-prefix/missing-suffix split) x 6 separator shapes x rel/abs "
             "(+chroot for '/x') and non-directory leaf/ancestor kinds; path lengths stepping over 512 and 4096 bytes for every operation; "
             "copy and write/read over (source size) x (destination absent/shorter/equal/longer/read-only/symlink/dangling/dir); "
             "short transfers: fs::write / append+write_all / overwrite+write_all / copy_file / File::copy under RLIMIT_FSIZE limits (1..100001, page multiples and odd) with payloads just below/at/above the limit, fs::read/read_to_string from chunk-fed fifos and /proc; "
+            "interrupted: every operation under SIGUSR1 storms on fifos fed/drained in bursts, MiB-sized files/copies, 2500-entry directories, deep trees and 12-component create_dir_all; and 16 scenarios under sysmon with EINTR injected at the positions of their own system-call sequence; "
             "directory iteration + remove_dir_all over name-length profiles 1..255 x entry counts up to 5000 (12000 thorough) with files/dirs/"
             "symlinks/fifos; remove_dir_all over random trees (depth<=6) with links into a sentinel tree; seeded random operation sequences on a "
             "random tree with byte-arbitrary names. Every operation bracketed by full std::fs snapshots of the sandbox (operated tree + sentinel) "
